@@ -57,6 +57,9 @@ def run(ctx):
                     cfg7 = dict(cfg, init='1.2.3.4.5.6.7')
                     for j in range(7):
                         jobs.append((cfg7, [['itb'] + ['itn'] * j + ['ite', 'itn', 'ite', 'itr', 'trav']], 'opseq', 1, ctx['seed'], ()))
+                if hsh == 'const' and cap == 64:
+                    # version written back by the iterator on release (see C10): reader paused across release + removal + re-insertion
+                    jobs.append((dict(cfg, cap='128', init='1.2.3.4'), [['itf 1', 'ite', 'itr', 'del 2', 'ins 6 60'], ['get 3']], 'dfs', 5000, ctx['seed'], ('--pb', '2')))
                 jobs.append((cfg, vhm_program(rng, 3, 3, iter_thread=0), 'random', n, ctx['seed'], ()))
                 jobs.append((cfg, vhm_program(rng, 3, 3, iter_thread=0), 'pct', n, ctx['seed'], ('--depth', '3')))
         do_search(ctx, H, jobs, name, classify=lambda c, h, f, name=name: {'harness': name})
